@@ -86,6 +86,8 @@ pub struct TState {
     pub flushed: usize,
     pub ops: Vec<Op>,
     pub fault: Fault,
+    /// which io::ErrorKind injected errors carry (see `injected`)
+    pub fault_kind: u8,
     pub fault_fired_at_op: Option<usize>,
     pub reads_at_eof: usize,
     pub gate: Option<Box<dyn Gate>>,
@@ -114,6 +116,7 @@ impl Transport {
             flushed: 0,
             ops: Vec::new(),
             fault,
+            fault_kind: 0,
             fault_fired_at_op: None,
             reads_at_eof: 0,
             gate: None,
@@ -127,9 +130,17 @@ impl Transport {
     }
 }
 
-fn injected(k: usize) -> io::Error {
-    // not Interrupted: std's write_all/read_exact are specified to retry that kind
-    io::Error::new(io::ErrorKind::ConnectionReset, format!("injected transport fault at op {}", k))
+fn injected(k: usize, kind: u8) -> io::Error {
+    // never Interrupted (callers are specified to retry it; see Fault::InterruptedRead) nor
+    // WouldBlock (the transport is blocking)
+    let kind = match kind {
+        1 => io::ErrorKind::UnexpectedEof,
+        2 => io::ErrorKind::Other,
+        3 => io::ErrorKind::BrokenPipe,
+        4 => io::ErrorKind::TimedOut,
+        _ => io::ErrorKind::ConnectionReset,
+    };
+    io::Error::new(kind, format!("injected transport fault at op {}", k))
 }
 
 impl TState {
@@ -159,7 +170,7 @@ impl TState {
         if let (Fault::WriteZero(_), OpKind::Write) = (&self.fault, kind) {
             return Some(Ok(0));
         }
-        Some(Err(injected(k)))
+        Some(Err(injected(k, self.fault_kind)))
     }
     fn log(&mut self, op: Op) {
         self.n_ops += 1;
